@@ -38,6 +38,15 @@ ZPad(pn) == ZS \cup {<<NP, "A", k>> : k \in 1..pn}
 JLong1 == [pre |-> <<>>, upd |-> <<RR(NB, "IN", "A", 300, 1), RR(NA, "NONE", "A", 0, 1)>>]
 JLong2 == [pre |-> <<>>, upd |-> <<RR(NB, "IN", "A", 300, 2)>>]
 JLong3 == [pre |-> <<>>, upd |-> <<RR(NP, "NONE", "A", 0, 3)>>]
+\* DNSSEC-related types as ORDINARY data of an unsigned zone: the DS RRset of a delegation (one is in
+\* the zone file already), CDS / CDNSKEY / DNSKEY at the apex or a host, added and deleted by UPDATE.
+\* They are zone content like any other: what was acknowledged has to be there after a restart.
+ZD == ZS \cup {<<NB, "NS", 1>>, <<NB, "DS", 1>>}
+JSecUpd == {RR(NB, "IN", "DS", 300, 2), RR(NB, "NONE", "DS", 0, 1), RR(NB, "ANY", "DS", 0, 0),
+            RR(AP, "IN", "CDS", 300, 1), RR(AP, "IN", "CDNSKEY", 300, 1), RR(AP, "IN", "DNSKEY", 300, 1),
+            RR(NA, "IN", "DNSKEY", 300, 2), RR(AP, "NONE", "CDS", 0, 1), RR(AP, "ANY", "DNSKEY", 0, 0),
+            RR(AP, "ANY", "CDNSKEY", 0, 0)}
+JSec1 == {[pre |-> <<>>, upd |-> <<u>>] : u \in JSecUpd}
 JMsgs  == JMsgs1 \cup JMsgs2 \cup JMsgs3 \cup JRej
 JSmall == JMsgs1 \cup JMsgs3 \cup JRej
 =============================================================================
